@@ -235,7 +235,7 @@ Stmts == <<
   [n |-> "break",     t |-> Brk],
   [n |-> "continue",  t |-> Cnt] >>
 
-BlockCtxNames == IF Thorough THEN <<"top", "if", "else", "for", "func", "lambda">> ELSE <<"top", "func", "else">>
+BlockCtxNames == IF Thorough THEN <<"top", "if", "else", "for", "func", "lambda">> ELSE <<"top", "func">>
 InBlock(name, ss) ==
   CASE name = "top"    -> ss
     [] name = "if"     -> <<If(Z, ss)>>
@@ -302,11 +302,11 @@ GenOpPairs == \E p \in 1..Len(Contexts), c \in 1..Len(Children) :
 GenSigns == \E p \in 1..Len(SignCtx), q \in 1..Len(SignCtx), c \in 1..Len(SignLeaf) :
   Emit("signs", <<p, q, c>>, <<Plug(SignCtx[p], Plug(SignCtx[q], SignLeaf[c]))>>)
 
-GenDepth3 == \E p \in 1..Len(RepCtx), q \in 1..Len(RepCtx), c \in 1..Len(RepLeaf) :
+GenDepth3 == \E p \in 1..Len(RepCtx), q \in 1..Len(RepCtx), c \in 1..(IF Thorough THEN Len(RepLeaf) ELSE 6) :
   Emit("depth3", <<p, q, c>>, <<Plug(RepCtx[p], Plug(RepCtx[q], RepLeaf[c]))>>)
 
 GenStmtPairs == \E b \in 1..Len(BlockCtxNames), i \in 1..Len(Stmts), j \in 1..Len(Stmts) :
-  Stmts[i].n # "return" /\ Emit("stmtpair", <<BlockCtxNames[b], Stmts[i].n, Stmts[j].n>>, InBlock(BlockCtxNames[b], <<Stmts[i].t, Stmts[j].t>>))
+  Stmts[i].n # "return" /\ (IF Thorough \/ b = 1 \/ (i + j) % 2 = 0 THEN TRUE ELSE FALSE) /\ Emit("stmtpair", <<BlockCtxNames[b], Stmts[i].n, Stmts[j].n>>, InBlock(BlockCtxNames[b], <<Stmts[i].t, Stmts[j].t>>))
 
 GenStmtSingle == \E b \in 1..Len(CmtBlockCtx), i \in 1..Len(Stmts) :
   Emit("stmt", <<CmtBlockCtx[b], Stmts[i].n>>, InBlock(CmtBlockCtx[b], <<Stmts[i].t>>))
